@@ -745,6 +745,10 @@ def element_pools():
     singles = [c[0] for c, cv in community_pool('quick') if cv[0] == 'n=1']
     out['community'] = _distinct(struct.pack('!I', upd.community_value(c)) for c in singles)
     out['ext_community'] = _distinct(upd.ext_community_bytes(item) for _, item in ext_kinds())
+    # types no decoder has a name for (OSPF domain id 0x0005, OSPF route type 0x0306, an unassigned one): two values each,
+    # so that a list holds the same unknown type twice
+    out['ext_community'] += [bytes.fromhex(h) for h in ('0005000000010000', '00050000fde80007', '0306000000000101', '0306ffffffffff05',
+                                                        '4a0b010203040506', '4a0bffffffffffff')]
     out['large_community'] = [struct.pack('!III', *upd._large(c[0])) for c, cv in large_pool('quick') if cv[0] == 'n=1']
     out['cluster_id'] = [ipaddress.IPv4Address(ip).packed for ip in IP4_BOUNDS + ('1.1.1.1', '2.2.2.2', '100.100.100.100')]
     for asn4 in (False, True):
